@@ -52,6 +52,7 @@ class Prop(object):
                 for b in red:
                     u.append(('texts', {'first': a, 'second': b, 'max': 4, 'alphabet': red}))
         u.append(('slices', {}))
+        u.append(('long', {}))
         u.append(('gpg', {}))
         return u
 
@@ -238,6 +239,25 @@ class Prop(object):
             if probs:
                 r.viol('gpg', {'kind': 'gpg-cleartext', 'doc': f.split('.')[2] if f.count('.') > 3 else 'other'}, dict(case, only=f), 'GnuPG-made cleartext message %s: %s' % (f, '; '.join(probs[:2])))
         r.samples.append({'gpg_cleartext': len(G.files('clear.*.asc'))})
+        return r
+
+    def c_long(self, case):
+        """Texts of more than 64 KiB / 128 KiB whose line ends (LF and CR LF) sit at, just before and just after the octets 2^16 and 2^17 of the text
+        and of its canonical form: canonicalisation is one function of the whole text, wherever its line ends fall."""
+        r = Res()
+        base = {k: v for k, v in case.items() if k not in ('text', 'hash', 'only')}
+        n = 0
+        for size in (65536, 131072):
+            for delta in (-2, -1, 0, 1):
+                for eol in ('\n', '\r\n'):
+                    n += 1
+                    if case.get('only') is not None and case['only'] != n:
+                        continue
+                    # the line end starts at octet size+delta of the text
+                    head = ('ab' * size)[:size + delta]
+                    text = head + eol + 'tail line' + eol + ('cd' * 40000) + eol + 'end'
+                    self._one_text(r, text, dict(base, only=n), 'SHA256')
+        r.samples.append({'long_texts': n, 'sizes': [65536, 131072]})
         return r
 
     def c_slices(self, case):
